@@ -87,6 +87,17 @@ type Case struct {
 	Pages  []Page   `json:"pages"`
 	Cfg    Cfg      `json:"cfg"`
 	Labels []string `json:"labels,omitempty"`
+	// Warm: the chunker object is not fresh - it chunked another document (which ends inside nested sections)
+	// just before. Nothing of that document may show in the result.
+	Warm bool `json:"warm,omitempty"`
+}
+
+// warmDoc is the document a reused chunker has seen before: headings left open at its end.
+func warmDoc() *model.Document {
+	w := Case{Title: "Earlier document", Form: "layout", Pages: []Page{{Number: 1, Elems: []Elem{
+		{Kind: "h", Level: 1, N: 2}, {Kind: "p", N: 12, Dot: 4}, {Kind: "h", Level: 2, N: 2}, {Kind: "p", N: 9, Dot: 3},
+		{Kind: "h", Level: 3, N: 1}, {Kind: "l", Items: []Item{{N: 2}, {N: 3, Level: 1}}}, {Kind: "p", N: 7}}}}}
+	return w.build().doc
 }
 
 func (s SizeSpec) build() rag.SizeConfig {
@@ -340,9 +351,17 @@ func run(c Case, doc *model.Document) ([]outChunk, error) {
 	switch c.Cfg.Chunker {
 	case "doc":
 		var col *rag.ChunkCollection
-		if c.Cfg.Default {
+		switch {
+		case c.Warm:
+			dc := rag.NewDocumentChunker()
+			if !c.Cfg.Default {
+				dc = rag.NewDocumentChunkerWithConfig(c.Cfg.chunkerConfig(), c.Cfg.Size.build())
+			}
+			dc.ChunkDocument(warmDoc())
+			col = dc.ChunkDocument(doc)
+		case c.Cfg.Default:
 			col = rag.ChunkDocument(doc)
-		} else {
+		default:
 			col = rag.ChunkDocumentWithConfig(doc, c.Cfg.chunkerConfig(), c.Cfg.Size.build())
 		}
 		if col == nil {
@@ -357,6 +376,11 @@ func run(c Case, doc *model.Document) ([]outChunk, error) {
 			ck = rag.NewChunker()
 		} else {
 			ck = rag.NewChunkerWithConfig(c.Cfg.chunkerConfig())
+		}
+		if c.Warm {
+			if _, err := ck.Chunk(warmDoc()); err != nil {
+				return nil, fmt.Errorf("Chunker.Chunk (earlier document): %v", err)
+			}
 		}
 		res, err := ck.Chunk(doc)
 		if err != nil {
@@ -727,7 +751,11 @@ func genCase(t *rapid.T) Case {
 		}
 		c.Pages = append(c.Pages, p)
 	}
+	c.Warm = rapid.IntRange(0, 3).Draw(t, "warmChunker") == 0
 	c.Labels = labels(c, maxChars)
+	if c.Warm {
+		c.Labels = append(c.Labels, "chunker-reused")
+	}
 	return c
 }
 
